@@ -177,8 +177,8 @@ JUNK = ["zz", "", 5, -1.5, True, None, [1], ["a"], {"a": 1}, {}, [], "2020-13-45
 # ---------------------------------------------------------------------------
 
 def gen_schema(rng, idx: int) -> dict:
-    nf = rng.choice([0, 1, 1, 2, 2, 3, 3, 4, 5, 6]) if rng.random() < 0.9 else 0
-    if idx % 17 == 0:
+    nf = rng.choice([1, 1, 2, 2, 3, 3, 4, 5, 6])
+    if idx % 23 == 0 or rng.random() < 0.03:
         nf = 0
     mixin = rng.random() < 0.75
     forbid = rng.random() < 0.35
